@@ -3,7 +3,7 @@ use crate::model::*;
 use crate::rng::Rng;
 
 pub const ALPHA: &[char] = &[
-    'a', 'b', 'c', ' ', '\u{3000}', 'あ', '漢', 'é', 'd', 'x', '1', '2', 'い', '字', '𠮷', '😀', 'ア', '-', '.', 'Z',
+    'a', 'b', 'c', ' ', '\u{3000}', 'あ', '漢', 'é', 'd', 'x', '1', '2', 'い', '字', '𠮷', '😀', 'ア', '-', '.', 'Z', '\u{10FFFF}',
 ];
 pub const CAT_NAMES: &[&str] = &[
     "SPACE", "ALPHA", "KANJI", "NUMERIC", "SYMBOL", "HIRAGANA", "KATAKANA", "GREEK", "X1", "X2", "X3", "X4", "X5", "X6", "X7", "X8", "X9", "X10", "X11", "X12",
@@ -133,6 +133,21 @@ pub fn gen_bigram(rng: &mut Rng, nr: usize, nl: usize, dual: bool, k_choice: Opt
         while left[j].len() < k {
             left[j].push("q1".into());
         }
+    } else if !right.is_empty() && !left.is_empty() && k >= 2 && rng.chance(0.6) {
+        // ragged model: every row of one file is shorter than the longest row of the other file
+        let short = 1 + rng.below(k - 1);
+        let (a, b) = if rng.chance(0.5) { (&mut right, &mut left) } else { (&mut left, &mut right) };
+        for row in a.iter_mut() {
+            row.truncate(short);
+            if row.len() == 1 && row[0].is_empty() {
+                row[0] = "*".into();
+            }
+        }
+        let j = rng.below(b.len());
+        while b[j].len() < k {
+            let f = format!("q{}", b[j].len() % 4);
+            b[j].push(f);
+        }
     }
     // cost table over features that occur (and some that do not)
     let mut costs: Vec<(String, String, i32)> = vec![];
@@ -183,6 +198,42 @@ pub fn gen_conn(rng: &mut Rng, cfg: &GenCfg) -> Conn {
     } else {
         gen_bigram(rng, nr.max(2), nl.max(2), kind == 2, None)
     }
+}
+
+/// Turns a matrix connector with `nr` right ids into one with `nr + 4096` and moves about half of the rows to
+/// the id 4096 above theirs (new columns get their own costs): ids that agree modulo 4096 (and in their low
+/// 12 bits) then occur together, as they do in dictionaries of realistic size.
+pub fn widen_right_ids(rng: &mut Rng, spec: &mut DictSpec, user: Option<&mut Vec<LexRow>>) -> bool {
+    let (nr, nl, old) = match &spec.conn {
+        Conn::Matrix { nr, nl, cells } => (*nr, *nl, cells.clone()),
+        _ => return false,
+    };
+    let nr2 = nr + 4096;
+    let mut cells = vec![0i16; nr2 * nl];
+    for l in 0..nl {
+        for r in 0..nr2 {
+            cells[l * nr2 + r] = if r < nr { old[l * nr + r] } else { rng.range(-2000, 2000) as i16 };
+        }
+    }
+    spec.conn = Conn::Matrix { nr: nr2, nl, cells };
+    for row in spec.lex.iter_mut() {
+        if rng.chance(0.5) {
+            row.r += 4096;
+        }
+    }
+    for row in spec.unk.iter_mut() {
+        if rng.chance(0.5) {
+            row.r += 4096;
+        }
+    }
+    if let Some(u) = user {
+        for row in u.iter_mut() {
+            if rng.chance(0.5) {
+                row.r += 4096;
+            }
+        }
+    }
+    true
 }
 
 pub fn gen_dict(rng: &mut Rng, cfg: &GenCfg) -> DictSpec {
